@@ -288,6 +288,35 @@ func c10Run(t *testing.T, rec *kit.Rec, idx int) {
 			}
 		}
 	}
+	if idx%8 == 5 || rng.Chance(1, 10) {
+		// "only missing packs" variant (seeded change C10-1): make the repository completely clean,
+		// add one snapshot with exclusive content, forget it again and delete EVERY pack that then
+		// holds only unused blobs. The observed prune has nothing to remove or repack except to drop
+		// the index entries of those missing packs.
+		if r := h.Prune(PruneOptions{MaxUnused: "0"}, false); r != nil && r.Err == nil {
+			_ = h.src.addFile(true)
+			h.Churn(rng.Range(3, 8))
+			if id, r := h.Backup(h.e, false); r.Err == nil && !id.IsNull() {
+				if r := h.Forget(vhForget{IDs: []string{id.String()}}, false); r.Err == nil {
+					if a, err := h.e.Audit(); err == nil {
+						used, _ := a.Reachable(c10Roots(a)...)
+						ac := c10Account(a, used)
+						n := 0
+						for pid, p := range ac.packs {
+							if p.present && p.entries > 0 && p.used == 0 {
+								h.e.vbe.Drop(backend.PackFile, pid.String())
+								n++
+							}
+						}
+						h.logf("tamper: all %d packs holding only unused blobs deleted from the backend (clean repository otherwise)", n)
+						if n > 0 {
+							rec.Count("histories_only_missing_unneeded_packs", 1)
+						}
+					}
+				}
+			}
+		}
+	}
 	c.History = h.Log
 
 	// ---- ground truth before
